@@ -38,7 +38,7 @@ enum Expect {
     Rejected,
 }
 
-const KEYS: [&str; 13] = ["name", "description", "k", "K", "meta", "a1", "name_", "Description", "k", "namespace", "names", "name2", "descriptions"];
+const KEYS: [&str; 17] = ["name", "description", "k", "K", "meta", "a1", "name_", "Description", "k", "namespace", "names", "name2", "descriptions", "key", "val", "starts", "ends"];
 
 fn const_value(d: &mut Dec, depth: u32) -> (Expr, Value) {
     if depth > 0 && d.below(3) == 0 {
